@@ -291,7 +291,8 @@ def stepStoreIndex (P : Prim) (arg : Opd) (st : MState) : R :=
           | none =>                      -- the container is pushed back after the store
             .ok { st3 with stack := dest.unwrap :: st3.stack, writes := (dest.unwrap, idx, v) :: st3.writes }
 
-/-- incrementByteCode (with fixes/C02.patch: an unknown variable is ErrUnknownIdentifier, as in Load) -/
+/-- incrementByteCode (with fixes/C02.patch: an unknown variable is ErrUnknownIdentifier, as in Load, and the result
+    passes Store's type boundary `checkType` before it is set) -/
 def stepIncrement (P : Prim) (arg : Opd) (st : MState) : R :=
   match arg with
   | .two nv k =>
@@ -304,9 +305,13 @@ def stepIncrement (P : Prim) (arg : Opd) (st : MState) : R :=
         match P.incr st.mode b k with
         | .error e => .error e
         | .ok r =>
-          match setSym st.scopes nv.asName (.plain r) with
+          -- `store := func(result any) error { result, err := c.checkType(symbol, result); …; return c.set(symbol, result) }`
+          match checkType P st nv.asName (.plain r) with
           | .error e => .error e
-          | .ok scs => .ok { st with scopes := scs }
+          | .ok v =>
+            match setSym st.scopes nv.asName v with
+            | .error e => .error e
+            | .ok scs => .ok { st with scopes := scs }
       | _ => .error (.other 10)          -- containers (array append) and markers: outside the value model
   | _ => .error .invalidOperand
 
